@@ -213,6 +213,11 @@ namespace bloch::compiler {
         int inheritanceDistance(const std::string& derived, const std::string& base) const;
         // The instantiation of class 'baseName' that 'derived' is or inherits from (type
         // arguments rewritten through every 'extends' clause on the way), if any.
+        // The current class applied to its own type parameters.
+        TypeInfo selfType() const;
+        // The type of a member declared in class 'owner', seen through a receiver type.
+        TypeInfo memberTypeThrough(const TypeInfo& declared, const std::string& owner,
+                                   const TypeInfo& receiver) const;
         std::optional<TypeInfo> inheritedInstantiation(const TypeInfo& derived,
                                                        const std::string& baseName,
                                                        int* distance) const;
